@@ -171,6 +171,7 @@ def destructure_subst(fn, types):
             if not self_shared:
                 unstable.add(p["hid"])
     mapping = {}
+    byref_map = {}
     for b in _walk(body):
         if b.get("k") != "block":
             continue
@@ -191,8 +192,67 @@ def destructure_subst(fn, types):
                         mapping[q["hid"]] = {"k": "field", "b": init, "f": str(i), "t": q.get("t"), "line": s.get("line")}
                 n += 1
                 continue
+            # `let S { a, b } = *self;` / `= place;` (immutable copies of fields that are never written in this function): a is place.a
+            if (s.get("k") == "let" and s.get("init") is not None and s.get("els") is None and s["pat"].get("k") == "struct" and s["pat"].get("fs")
+                    and all(q.get("k") in ("bind", "wild") and not q.get("sub") and str(q.get("mode", "BindingMode(No, Not)")).endswith("No, Not)") for _, q in s["pat"]["fs"])
+                    and _pure_place(s["init"])):
+                r = _root(s["init"])
+                init = s["init"]
+                while init.get("k") in ("ref", "blk") or (init.get("k") == "un" and init.get("op") == "Deref"):
+                    init = init["x"] if init["k"] in ("ref", "un") else init["b"]["tail"]
+                chain = []
+                t_ = init
+                while t_ is not None and t_.get("k") == "field":
+                    chain.append(t_["f"])
+                    t_ = t_["b"]
+                    while t_ is not None and (t_.get("k") in ("ref",) or (t_.get("k") == "un" and t_.get("op") == "Deref")):
+                        t_ = t_["x"]
+                i0_ = _unblk(s["init"])
+                ti_ = i0_.get("ta", i0_.get("t")) if i0_ is not None else None
+                by_ref = (i0_ is not None and i0_.get("k") in ("local", "field") and ti_ is not None and ti_ < len(types) and types[ti_].startswith("&")) or \
+                         (i0_ is not None and i0_.get("k") == "ref")
+                if by_ref and r is not None and r.get("k") == "local" and r["hid"] not in mapping and \
+                        not any(y.get("k") in ("assign", "assignop") and _unblk(y["l"]) is not None and _unblk(y["l"]).get("k") == "local"
+                                and _unblk(y["l"])["hid"] in [q["hid"] for _, q in s["pat"]["fs"] if q.get("k") == "bind"] + [r["hid"]] for y in _walk(body)):
+                    # destructuring through a reference binds references to the fields: `*f` is place.f, a bare `f` is `&mut place.f`
+                    for a_, q in s["pat"]["fs"]:
+                        if q.get("k") == "bind":
+                            byref_map[q["hid"]] = {"k": "field", "b": init, "f": a_, "t": None, "line": s.get("line")}
+                    n += 1
+                    continue
+                if r is not None and r.get("k") == "local" and r["hid"] not in mapping:
+                    roots = [(r["hid"], chain[-1] if chain else a_) for a_, q in s["pat"]["fs"] if q.get("k") == "bind"]
+                    whole = any(y.get("k") == "mcall" and _unblk(y["recv"]) is not None and _root(y["recv"]) is not None and _root(y["recv"]).get("k") == "local"
+                                and _root(y["recv"])["hid"] == r["hid"] and not any(z.get("k") in ("field", "index") for z in _walk(y["recv"]))
+                                and y.get("name") not in ("clone", "len", "is_some", "is_none", "is_empty") for y in _walk(body))
+                    if _never_written(fn, roots) and not whole:
+                        for a_, q in s["pat"]["fs"]:
+                            if q.get("k") == "bind":
+                                mapping[q["hid"]] = {"k": "field", "b": init, "f": a_, "t": q.get("t"), "line": s.get("line")}
+                        n += 1
+                        continue
             keep.append(s)
         b["stmts"] = keep
+    if byref_map:
+        def subst_r(x):
+            if isinstance(x, dict):
+                if x.get("k") == "un" and x.get("op") == "Deref":
+                    i1 = _unblk(x["x"])
+                    if i1 is not None and i1.get("k") == "local" and i1.get("hid") in byref_map:
+                        r_ = copy.deepcopy(byref_map[i1["hid"]])
+                        if "t" in x:
+                            r_["t"] = x["t"]
+                        return r_
+                if x.get("k") == "local" and x.get("hid") in byref_map:
+                    return {"k": "ref", "mut": True, "x": copy.deepcopy(byref_map[x["hid"]]), "line": x.get("line"), "t": x.get("t")}
+                for k_, v in list(x.items()):
+                    if isinstance(v, (dict, list)):
+                        x[k_] = subst_r(v)
+                return x
+            if isinstance(x, list):
+                return [subst_r(v) for v in x]
+            return x
+        fn["body"] = body = subst_r(body)
     if mapping:
         def subst(x):
             if isinstance(x, dict):
@@ -353,8 +413,9 @@ def inline_local_closures(fn, counter):
 
 
 def split_tuple_values(fn):
-    """D6  `let d = (e0, e1, ..);` with every use of `d` of the form `d.N` and every e_i a duplicable pure place / literal:
-    each `d.N` is replaced by e_N and the let is dropped (e.g. the argument tuple of an inlined helper)."""
+    """D6  `let d = (e0, e1, ..);` / `let d = S { f: e, .. };` with every use of `d` of the form `d.N` / `d.f`, every component a duplicable pure
+    place / literal and nothing the components name written anywhere in the function: each projection is replaced by its component and
+    the let is dropped (e.g. the argument tuple of an inlined helper, a struct of copied hyper-parameters)."""
     body = fn.get("body")
     n = 0
     for b in list(_walk(body)):
@@ -367,8 +428,11 @@ def split_tuple_values(fn):
             init = s["init"]
             while init.get("k") == "blk" and not init["b"]["stmts"] and init["b"]["tail"] is not None:
                 init = init["b"]["tail"]
-            if init.get("k") != "tup" or not init["xs"]:
+            is_struct = init.get("k") == "struct" and init.get("fs") and not init.get("base")
+            if not ((init.get("k") == "tup" and init["xs"]) or is_struct):
                 continue
+            comp_list = init["xs"] if not is_struct else [e for _, e in init["fs"]]
+            comp_keys = [str(i) for i in range(len(comp_list))] if not is_struct else [a_ for a_, _ in init["fs"]]
 
             def dup_ok(e):
                 while e is not None and e.get("k") in ("ref", "blk") or (e is not None and e.get("k") == "un" and e.get("op") == "Deref"):
@@ -379,23 +443,37 @@ def split_tuple_values(fn):
                     else:
                         e = e["x"]
                 return e is not None and (e.get("k") in ("local", "lit") or (e.get("k") == "field" and _pure_place(e)))
-            if not all(dup_ok(e) for e in init["xs"]):
+            if not all(dup_ok(e) for e in comp_list):
+                continue
+            # the components must still hold the same values where `d.N` is read: nothing they name is written in this function
+            roots_ = [r_ for e in comp_list for r_ in _place_roots(e)]
+            bare_ = {h for (h, f) in roots_ if f is None} - {h for (h, f) in roots_ if f is not None}
+            if not _never_written(fn, [r_ for r_ in roots_ if r_[1] is not None]):
+                continue
+            if any(y.get("k") in ("assign", "assignop") and _root(y["l"]) is not None and _root(y["l"]).get("k") == "local" and _root(y["l"])["hid"] in bare_ for y in _walk(fn["body"])):
                 continue
             hid = s["pat"]["hid"]
             uses = [x for x in _walk(fn["body"]) if x.get("k") == "local" and x.get("hid") == hid]
-            fields = [x for x in _walk(fn["body"]) if x.get("k") == "field" and isinstance(x.get("b"), dict) and x["b"].get("k") == "local" and x["b"].get("hid") == hid
-                      and str(x.get("f")).isdigit() and int(x["f"]) < len(init["xs"])]
+
+            def is_use(x):
+                if not (x.get("k") == "field" and isinstance(x.get("b"), dict)):
+                    return False
+                b0 = x["b"]
+                while b0.get("k") in ("ref",) or (b0.get("k") == "un" and b0.get("op") == "Deref"):
+                    b0 = b0["x"]
+                return b0.get("k") == "local" and b0.get("hid") == hid and str(x.get("f")) in comp_keys
+            fields = [x for x in _walk(fn["body"]) if is_use(x)]
             if not uses or len(uses) != len(fields):
                 continue
-            comps = init["xs"]
+            comps = dict(zip(comp_keys, comp_list))
 
             def subst(x):
                 if isinstance(x, list):
                     return [subst(v) for v in x]
                 if not isinstance(x, dict):
                     return x
-                if x.get("k") == "field" and isinstance(x.get("b"), dict) and x["b"].get("k") == "local" and x["b"].get("hid") == hid and str(x.get("f")).isdigit():
-                    return copy.deepcopy(comps[int(x["f"])])
+                if is_use(x):
+                    return copy.deepcopy(comps[str(x["f"])])
                 for k_, v in list(x.items()):
                     if isinstance(v, (dict, list)):
                         x[k_] = subst(v)
@@ -553,6 +631,8 @@ def _index_arith(n, depth=0):
         return False
     if n.get("k") in ("local", "lit"):
         return True
+    if n.get("k") == "cast":
+        return _index_arith(n["x"], depth + 1)
     if n.get("k") == "bin" and n.get("op") in ("Add", "Sub", "Mul"):
         return _index_arith(n["l"], depth + 1) and _index_arith(n["r"], depth + 1)
     return False
@@ -2001,13 +2081,42 @@ def _eq_expr(a, b):
     return a == b
 
 
+def _noref(n):
+    """the scrutinee with the borrows of its (tuple) components removed: `(&mut a, &b)` and `(a, b)` test the same values"""
+    n = _unblk(n)
+    if n is None:
+        return n
+    if n.get("k") == "ref" or (n.get("k") == "un" and n.get("op") == "Deref"):
+        return _noref(n["x"])
+    if n.get("k") == "tup":
+        return {"k": "tup", "xs": [_noref(x) for x in n["xs"]]}
+    return n
+
+
+def _pure_access(n, depth=0):
+    """a place reached by fields, side-effect free indices, borrows and derefs from a local"""
+    n = _unblk(n)
+    if n is None or depth > 8:
+        return False
+    k = n.get("k")
+    if k == "local":
+        return True
+    if k == "field":
+        return _pure_access(n["b"], depth + 1)
+    if k == "index":
+        return _pure_access(n["b"], depth + 1) and _pure_expr(n["i"])
+    if k == "ref" or (k == "un" and n.get("op") == "Deref"):
+        return _pure_access(n["x"], depth + 1)
+    return False
+
+
 def _pure_scrutinee(n):
     n0 = _unblk(n)
     if n0 is None:
         return False
     if n0.get("k") == "tup":
         return all(_pure_scrutinee(x) for x in n0["xs"])
-    return _pure_place(n0)
+    return _pure_place(n0) or _pure_access(n0)
 
 
 def iflet_chain_to_match(fn):
@@ -2028,7 +2137,7 @@ def iflet_chain_to_match(fn):
                 e0 = e0["b"]["tail"]
             if e0 is not None and e0.get("k") == "if":
                 c2 = _unblk(e0["c"])
-                if c2 is not None and c2.get("k") == "letx" and _eq_expr(_unblk(c2["init"]), _unblk(c["init"])):
+                if c2 is not None and c2.get("k") == "letx" and _eq_expr(_noref(_unblk(c2["init"])), _noref(_unblk(c["init"]))):
                     arms.append((c2["pat"], e0["th"]))
                     el = e0.get("el")
                     continue
@@ -2246,6 +2355,17 @@ def bool_match_to_if(fn):
             for a_ in alts[1:]:
                 e = {"k": "bin", "op": "Or", "l": e, "r": a_, "line": line}
             return e
+        # a test already decided by the failure of an earlier arm is not repeated: `(true, _) => A, (false, true) => B` is `if a {A} else if b {B}`
+        known = set()
+        for k_, cs in enumerate(conds):
+            if len(cs) == 1:
+                rest_ = [t_ for t_ in cs[0] if t_ not in known]
+                if len(rest_) == 1 and (rest_[0][0], not rest_[0][1]) not in known:
+                    known.add((rest_[0][0], not rest_[0][1]))
+                    conds[k_] = [rest_]
+                    continue
+                if all((t_[0], not t_[1]) not in known for t_ in rest_):
+                    conds[k_] = [rest_]
         out = None
         arms = list(zip(x["arms"], conds))
         last = arms[-1][0]["body"]
@@ -2832,6 +2952,67 @@ def eta_reduce(fn):
     return n
 
 
+_SP = [0]
+
+
+def struct_subpatterns(fn):
+    """D35  a match arm `Variant(Struct { f, g, .. }) => body` binding fields of the payload (by reference, under the default binding modes)
+            ->  `Variant(whole) => body` with `*f` read as `whole.f` and a bare `f` as `&mut whole.f`: the bindings are the payload's fields."""
+    n = 0
+    for m in list(_walk(fn.get("body"))):
+        if m.get("k") != "match":
+            continue
+        for a in m["arms"]:
+            p0 = a["pat"]
+            while p0.get("k") in ("ref", "deref"):
+                p0 = p0["p"]
+            if p0.get("k") != "tstruct" or len(p0.get("ps") or []) != 1:
+                continue
+            sp = p0["ps"][0]
+            holder, key = p0["ps"], 0
+            while sp.get("k") in ("ref", "deref"):
+                holder, key = sp, "p"
+                sp = sp["p"]
+            if sp.get("k") != "struct" or not sp.get("fs") or not all(q.get("k") in ("bind", "wild") and not q.get("sub") for _, q in sp["fs"]):
+                continue
+            binds = {q["hid"]: (f_, q) for f_, q in sp["fs"] if q.get("k") == "bind"}
+            if not binds or any(str(q.get("mode", "")).startswith("BindingMode(Ref") for _, q in binds.values()):
+                continue
+            # a field binding that is itself re-assigned as a whole (`f = other_ref`) would not be a field access: leave such arms alone
+            if any(y.get("k") in ("assign", "assignop") and _unblk(y["l"]) is not None and _unblk(y["l"]).get("k") == "local" and _unblk(y["l"])["hid"] in binds for y in _walk(a["body"])):
+                continue
+            _SP[0] += 1
+            wh = 9900000 + _SP[0]
+            wname = "_payload%d" % _SP[0]
+            line = a.get("line") or m.get("line")
+            whole = lambda: {"k": "local", "name": wname, "hid": wh, "line": line}
+
+            def subst(x):
+                if isinstance(x, list):
+                    return [subst(v) for v in x]
+                if not isinstance(x, dict):
+                    return x
+                if x.get("k") == "un" and x.get("op") == "Deref":
+                    i0 = _unblk(x["x"])
+                    if i0 is not None and i0.get("k") == "local" and i0.get("hid") in binds:
+                        r = {"k": "field", "b": whole(), "f": binds[i0["hid"]][0], "line": x.get("line")}
+                        if "t" in x:
+                            r["t"] = x["t"]
+                        return r
+                if x.get("k") == "local" and x.get("hid") in binds:
+                    return {"k": "ref", "mut": True, "x": {"k": "field", "b": whole(), "f": binds[x["hid"]][0], "line": x.get("line")}, "line": x.get("line"), "t": x.get("t")}
+                for k_, v in list(x.items()):
+                    if isinstance(v, (dict, list)):
+                        x[k_] = subst(v)
+                return x
+            a["body"] = subst(a["body"])
+            if a.get("guard") is not None:
+                a["guard"] = subst(a["guard"])
+            holder[key] = {"k": "bind", "name": wname, "hid": wh, "mode": "BindingMode(No, Not)", "t": None}
+            n += 1
+    return n
+
+
 _NEG = {"Lt": "Ge", "Ge": "Lt", "Gt": "Le", "Le": "Gt", "Eq": "Ne", "Ne": "Eq"}
 
 
@@ -2924,6 +3105,7 @@ def run(facts):
         counts["range_for_each"] = counts.get("range_for_each", 0) + range_for_each(fn)
         counts["compound_assignments"] = counts.get("compound_assignments", 0) + compound_assignments(fn)
         counts["mut_ref_aliases"] = counts.get("mut_ref_aliases", 0) + mut_ref_aliases(fn)
+        counts["struct_subpatterns"] = counts.get("struct_subpatterns", 0) + struct_subpatterns(fn)
         counts["eta_reduced"] = counts.get("eta_reduced", 0) + eta_reduce(fn)
         counts["partial_cmp_matches"] = counts.get("partial_cmp_matches", 0) + partial_cmp_match(fn)
         counts["reduce_max_by"] = counts.get("reduce_max_by", 0) + reduce_to_max_by(fn)
